@@ -880,9 +880,8 @@ class C14(Spec):
                   'a non-empty run of trailing blank lines of A, then for every B the block loop renders A followed by B exactly as it '
                   'renders A and then B from the session A left: same HTML, session and diagnostics; the premise is what the property calls '
                   '"A leaves no block open and does not end in a list"; proved through suffix-locality of every line-block and '
-                  'delimited-block function). Not covered by the theorem: A containing top-level list blocks (the list fixpoint reads '
-                  'ahead). Those, and whole documents through the API, are decided by the split-vs-joined oracle and correspondence on '
-                  'pairs and triples.')
+                  'delimited-block function and of the list fixpoint). Whole documents through the API (reader splitting, the white space '
+                  'between the two outputs) are decided by the split-vs-joined oracle and correspondence on pairs and triples.')
     rule = ('pairs/triples of token-soup documents, A closed (checked by rendering A + sentinel paragraph); options on the first call only; '
             'HTML compared up to white space between tags, diagnostics as sets; non-trivial as usual')
     state_keys = None
@@ -1205,8 +1204,8 @@ class C08(ExpectSpec):
                   'C08_matcher_sound_and_complete, C08_match_iff, C08_search_complete, C08_patterns_exact (dispatch is first-match: the model\'s backtracking '
                   'matcher finds a match exactly when one exists in the exact declarative semantics mx, for 79 of the 82 generated patterns). '
                   'C08_first_blocks_independent, C08_line_block_local, C08_delimited_block_local (a block that ends before the end of the input is '
-                  'rendered the same, with the same session, whatever follows it: for every suffix, definition table and mode; list blocks not '
-                  'covered). The per-kind functional equations are decided by the block-grammar oracle and correspondence.')
+                  'rendered the same, with the same session, whatever follows it: for every suffix, definition table and mode; C08_list_block_local '
+                  'for lists). The per-kind functional equations are decided by the block-grammar oracle and correspondence.')
     rule = ('documents from a block grammar (paragraph, header, fenced code, indented, quote paragraph, quote/division blocks nested to depth 3 '
             'with distinct delimiters and optional class names, HTML block, comments, definitions; 1-2 blank lines) in every safe mode; '
             'expected HTML predicted from the block list; non-trivial = more than one block kind')
